@@ -64,7 +64,7 @@ PROPS = {
     "C08": {
         "module": "GtfsVerif.Props.C08",
         "trusted_base": ST_TB,
-        "partial": ["row-permutation invariance is proved for stop_times.txt (the harder case: interleaved trips); shapes.txt is covered by sortedness theorems and the correspondence"],
+        "partial": [],
         "assumptions": ["distinct stop_sequence per trip and shape_pt_sequence per shape (the statement's quantifier): Go's sort is unstable"],
     },
     "C09": {
@@ -95,7 +95,7 @@ PROPS = {
     "C02": {
         "module": "GtfsVerif.Props.C02",
         "trusted_base": RT_TB,
-        "partial": ["'exactly one Trip per distinct descriptor / one Vehicle per distinct vehicle' is split: uniqueness and order for all messages are theorems (C07_trips_sorted_unique, C07_vehicles_unique_ids), presence of every mentioned descriptor with its own entity's data is C07_own_entity_wins plus the oracle against the wire values",
+        "partial": ["'exactly one Trip per distinct descriptor / one Vehicle per distinct vehicle' is proved on the model for conflict-free messages (C02_trips_exact, C02_vehicles_exact: present iff mentioned, once, with the own entity's data or the bare identifier; id-less vehicles one per id-less mention in feed order); that the surfaced Trip.Vehicle / Vehicle.Trip pointers agree with these entries is C04's part",
                     "'local midnight in a DST zone' is observed on the implementation (canonicaliser: every start date must read 00:00:00 in the configured location); the Lean theorem is about the civil day number"],
         "assumptions": ["protobuf required fields are present after Unmarshal (header, entity id, trip of a trip update)"],
     },
@@ -109,7 +109,7 @@ PROPS = {
     "C07": {
         "module": "GtfsVerif.Props.C07",
         "trusted_base": RT_TB,
-        "partial": ["permutation invariance is proved for Trips (identifiers, order and data: C07_parse_trips_perm_invariant, for no extension and the NYCT trips extension, whose pre-pass treats each entity on its own) via the closed form of merging one trip's mentions; invariance of Vehicles (as a multiset) and of the links under permutation is not yet a theorem and is carried by the correspondence (6 entity orders per case on model and implementation) and the C04/C07 oracles"],
+        "partial": ["permutation invariance is proved for Trips (identifiers, order and data: C07_parse_trips_perm_invariant) and for Vehicles (identified vehicles: same identifiers, order and data; id-less vehicles: the same multiset, C07_parse_vehicles_perm_invariant), for no extension and the NYCT trips extension, whose pre-pass treats each entity on its own, via the closed form of merging one trip's / vehicle's mentions; invariance of the links (Trip.Vehicle, Vehicle.Trip) under permutation is not yet a theorem and is carried by the correspondence (6 entity orders per case on model and implementation) and the C04/C07 oracles"],
         "assumptions": [],
     },
     "C12": {
@@ -128,7 +128,7 @@ PROPS = {
     "C17": {
         "module": "GtfsVerif.Props.C17",
         "trusted_base": RT_TB,
-        "partial": ["elevator grouping over a whole feed: proved are the fold-level key theorem (the group table's keys are exactly the distinct documented ids in order of first appearance, C17_group_keys), one pre-processed entry per entity, and per step: first member kept under the documented id, later members skipped, stops a duplicate-free set; that the stops of a group are exactly its members' stops over the whole fold is checked end to end by the oracle",
+        "partial": ["elevator grouping over a whole feed is proved on the pre-pass model (C17_group_keys: one group per distinct documented id; C17_group_stops: the group's entry is not skipped, carries the documented id and informs exactly the distinct stops of all its members; C17_group_stops_perm: the same set for any order; later members skipped); cause/effect of the group's alert after the remaining UpdateAlert steps and the composition with ParseRealtime's merge loop are checked by the correspondence and the oracle",
                     "the JSON text of the NYCT metadata is opaque in the model (a marker); its presence is modelled exactly"],
         "assumptions": [],
     },
@@ -189,7 +189,7 @@ MANIFEST_TEXT = {
         "technique": "Lean 4 inventory theorem over regenerated map-range sites + repeated/cross-process parse oracle",
     },
     "C08": {
-        "text": "Theorems: stop times ascending per trip, shapes ordered by id, shape points ascending (mergeSort sortedness), routes/trips keep row order (filterMap sublist), frequencies appended in row order, and row-permutation invariance of stop_times.txt for distinct sequences (uniqueness of the sorted permutation). The correspondence parses each feed with the rows of stop_times.txt and shapes.txt reversed, riffled and shuffled.",
+        "text": "Theorems: stop times ascending per trip, shapes ordered by id, shape points ascending (mergeSort sortedness), routes/trips keep row order (filterMap sublist), frequencies appended in row order, and row-permutation invariance of stop_times.txt and of shapes.txt (shapes, their order and their points) for distinct sequences (uniqueness of the sorted permutation). The correspondence parses each feed with the rows of stop_times.txt and shapes.txt reversed, riffled and shuffled.",
         "note": "Trusted: Lean kernel, harness; sort.Slice modelled as a sort (unstable: distinct keys assumed as in the statement).",
         "technique": "Lean 4 proof (sortedness, sorted-permutation uniqueness) + row-shuffle correspondence",
     },
@@ -215,7 +215,7 @@ MANIFEST_TEXT = {
     },
     "C02": {
         "text": "Theorems over the realtime model for all decoded messages: timestamps are the same instant (identity below 2^63, two's complement above), delay/time/uncertainty and every optional vehicle field carried over with absent staying absent, HH:MM:SS to seconds for all two-digit triples, YYYYMMDD to the civil day (normalisation is the identity on valid dates), direction and enum decoders over the regenerated tables, one Alert per non-skipped alert entity in feed order (closed form of the merge loop), regex texts pinned. The model is compared field by field with ParseRealtime on generated conflict-free messages in 8 zones and the oracle compares the result with the wire values.",
-        "note": "Trusted: Lean kernel, protobuf-go, time package (zone presentation observed, not proved), harness. 'One Trip per distinct descriptor' is split between C07's theorems and the oracle (see evidence.partial).",
+        "note": "Trusted: Lean kernel, protobuf-go, time package (zone presentation observed, not proved), harness. 'One Trip per distinct descriptor, one Vehicle per distinct vehicle' is C02_trips_exact / C02_vehicles_exact.",
         "technique": "Lean 4 proof over a model of ParseRealtime + differential correspondence and wire-truth oracle",
     },
     "C04": {
@@ -224,7 +224,7 @@ MANIFEST_TEXT = {
         "technique": "Lean 4 proof over the association tables / link resolution of the model + pointer-walk oracle",
     },
     "C07": {
-        "text": "Theorems for every message and extension: TripID.Less is a strict total order on parser-produced identifiers (lexicographic key), Trips is strictly increasing in it (state invariant of the merge loop by induction over entities: keys distinct, well-formed, entry id = key; mergeSort sortedness), Vehicles has no duplicate identifier; own-entity-wins for any position of the own entity among references; mentions of different trips commute. Permutation invariance itself is checked on 6 entity orders per conflict-free case on model and implementation (partial).",
+        "text": "Theorems for every message and extension: TripID.Less is a strict total order on parser-produced identifiers (lexicographic key), Trips is strictly increasing in it (state invariant of the merge loop by induction over entities: keys distinct, well-formed, entry id = key; mergeSort sortedness), Vehicles has no duplicate identifier; own-entity-wins for any position of the own entity among references; mentions of different trips commute. Permutation invariance of Trips and of Vehicles for conflict-free messages is proved via the closed form of merging one key's mentions and the uniqueness of a sorted permutation; the links under permutation are checked on 6 entity orders per case on model and implementation (partial).",
         "note": "Trusted: Lean kernel, harness. sort.Slice is modelled as a sort; output claimed only where keys are distinct (proved).",
         "technique": "Lean 4 proof (strict total order via lexicographic keys, loop invariant by induction) + permutation correspondence",
     },
@@ -239,7 +239,7 @@ MANIFEST_TEXT = {
         "technique": "Lean 4 proof (arithmetic on %02d rendering, decision logic) + differential correspondence",
     },
     "C17": {
-        "text": "Theorems: the priority->effect table (40 entries), the timetabled set, cause prefixes, elevator cause/effect and id formats are regenerated from the source and pinned to the documented values; effect is the fold of the priorities over the table, skip iff option and a timetabled priority, metadata iff requested, plain alerts pass through unchanged, group stops form a duplicate-free set independent of member order, first member kept under the documented id and later members skipped. Correspondence and oracle over 3 policies x 2^3 flags, all priorities.",
+        "text": "Theorems: the priority->effect table (40 entries), the timetabled set, cause prefixes, elevator cause/effect and id formats are regenerated from the source and pinned to the documented values; effect is the fold of the priorities over the table, skip iff option and a timetabled priority, metadata iff requested, plain alerts pass through unchanged, over the whole pre-pass fold one group per distinct documented id whose entry informs exactly the distinct stops of all its members (invariant by induction over the entities), independent of member order, first member kept under the documented id and later members skipped. Correspondence and oracle over 3 policies x 2^3 flags, all priorities.",
         "note": "Trusted: Lean kernel, harness, hand-written matcher for the elevator id regex (text pinned), opaque metadata JSON.",
         "technique": "Lean 4 proof over regenerated tables (decide) and the alert pre-pass model + differential correspondence",
     },
